@@ -624,9 +624,6 @@ fn bid128_from_string_clear_status(str: &str, rnd_mode: RoundingMode, pfpsf: &mu
             coeff_low  = (coeff_low << 3) + (coeff_low << 1);
             dec_expon -= 1;
         }
-        if dec_expon == -(MAX_FORMAT_DIGITS_128 as i32) && coeff_high > 50000000000000000u64 {
-            carry = 0;
-        }
     }
 
     CX         = __mul_64x64_to_128_fast(coeff_high, scale_high);
